@@ -37,6 +37,10 @@ pub struct Link {
     /// requesting links only: declared with `@pytest.fixture(name="fx")` on a function named otherwise
     #[serde(default)]
     pub alias: bool,
+    /// imported links only: the helper module that holds the definition itself star-imports a base module
+    /// defining a plain `fx` above it (its own definition rebinds the name: the helper provides its own)
+    #[serde(default)]
+    pub helper_base: bool,
 }
 
 fn fxdef(l: &Link) -> Item {
@@ -94,10 +98,12 @@ impl Chain {
                             module: format!("hh{}", lvl),
                         }],
                     ));
-                    files.push(FileSpec::new(
-                        &format!("{}hh{}.py", dir, lvl),
-                        vec![fxdef(l)],
-                    ));
+                    if l.helper_base {
+                        files.push(FileSpec::new(&format!("{}hh{}.py", dir, lvl), vec![Item::StarImport { module: format!("bb{}", lvl) }, fxdef(l)]));
+                        files.push(FileSpec::new(&format!("{}bb{}.py", dir, lvl), vec![Item::fixture("fx", &[])]));
+                    } else {
+                        files.push(FileSpec::new(&format!("{}hh{}.py", dir, lvl), vec![fxdef(l)]));
+                    }
                 } else {
                     // a dependent fixture written above the (possibly self-requesting) definition
                     files.push(FileSpec::new(
@@ -129,16 +135,16 @@ impl Chain {
             }
             let positions: Vec<usize> = (0..npos).filter(|p| mask & (1 << p) != 0).collect();
             // per link options
-            // (imported, requests, below, wrapped, oneline, dup_before, alias)
-            let opts: Vec<Vec<(bool, bool, bool, bool, bool, bool, bool)>> = positions
+            // (imported, requests, below, wrapped, oneline, dup_before, alias, helper_base)
+            let opts: Vec<Vec<(bool, bool, bool, bool, bool, bool, bool, bool)>> = positions
                 .iter()
                 .map(|&p| {
                     if p == 0 {
-                        vec![(false, false, false, false, false, false, false), (false, true, false, false, false, false, false), (false, false, true, false, false, false, false), (false, true, true, false, false, false, false), (false, true, false, true, false, false, false), (false, true, true, true, false, false, false), (false, true, false, false, true, false, false), (false, true, true, false, true, false, false), (false, true, false, false, false, true, false), (false, true, false, true, false, true, false), (false, true, false, false, false, false, true), (false, true, false, true, false, false, true)]
+                        vec![(false, false, false, false, false, false, false, false), (false, true, false, false, false, false, false, false), (false, false, true, false, false, false, false, false), (false, true, true, false, false, false, false, false), (false, true, false, true, false, false, false, false), (false, true, true, true, false, false, false, false), (false, true, false, false, true, false, false, false), (false, true, true, false, true, false, false, false), (false, true, false, false, false, true, false, false), (false, true, false, true, false, true, false, false), (false, true, false, false, false, false, true, false), (false, true, false, true, false, false, true, false)]
                     } else if p <= depth {
-                        vec![(false, false, false, false, false, false, false), (false, true, false, false, false, false, false), (true, false, false, false, false, false, false), (true, true, false, false, false, false, false), (false, true, false, true, false, false, false), (true, true, false, true, false, false, false), (false, true, false, false, true, false, false), (false, true, false, false, false, true, false), (false, true, false, false, false, false, true)]
+                        vec![(false, false, false, false, false, false, false, false), (false, true, false, false, false, false, false, false), (true, false, false, false, false, false, false, false), (true, true, false, false, false, false, false, false), (false, true, false, true, false, false, false, false), (true, true, false, true, false, false, false, false), (false, true, false, false, true, false, false, false), (false, true, false, false, false, true, false, false), (false, true, false, false, false, false, true, false), (true, false, false, false, false, false, false, true), (true, true, false, false, false, false, false, true)]
                     } else {
-                        vec![(false, false, false, false, false, false, false)]
+                        vec![(false, false, false, false, false, false, false, false)]
                     }
                 })
                 .collect();
@@ -158,6 +164,7 @@ impl Chain {
                             oneline: opts[i][idx[i]].4,
                             dup_before: opts[i][idx[i]].5,
                             alias: opts[i][idx[i]].6,
+                            helper_base: opts[i][idx[i]].7,
                         })
                         .collect(),
                 });
